@@ -68,6 +68,8 @@ class Run:
         self.case = case
         self.hist = []
         self.info = {}
+        if case.get('fault'):
+            C.install_fault(sim, case['fault'])
 
     def child_gone(self, w, kind):
         if lib.base_kind(kind) == 'thread':
@@ -128,7 +130,7 @@ class Run:
                         n = lib.break_connections(w, e, which=('_ctrl_sock',))
                         self.info['net_fault_fired'] = [n, len(self.hist)]
                         sim.tlog('net-fault')
-                    sim.add_timer(sim.now + 0.002, fire)
+                    sim.add_timer(sim.now + c.get('net_delay', 0.002), fire)
             s.block_hooks.append(hook)
         for op, kw in c['ops']:
             tsum = kw.get('timeout', 0)
@@ -219,9 +221,33 @@ def make_run(sim, case):
     return Run(sim, case)
 
 
+def directed_cases(ctx, rng):
+    out = []
+    # (a) a thread worker that finishes by itself while the caller of terminate() is descheduled at the k-th line of terminate()
+    #     (after it has seen the worker alive, before it raises the exception in a thread that no longer exists)
+    for k in range(1, 9):
+        for settle in (0.02, 0.08):
+            out.append({'kind': 'thread', 'behaviour': 'short', 'ops': [['terminate', {'timeout': 1, 'force': False}], ['is_alive', {}]], 'items': 0,
+                        'policy': {'kind': 'random', 'p_stay': 0.9}, 'knobs': {}, 'net_fault': None, 'settle': settle,
+                        'fault': {'kind': 'stall', 'any_thread': True, 'qualname': 'ThreadWorker.terminate', 'occ': k, 'duration': 0.5},
+                        'sched_seed': ctx.case_seed('terminate-vs-finish', k, settle)})
+    # (b) the control connection of a remote worker failing at a range of instants after the caller has sent its request:
+    #     before the answer, between the answer and the final release message, after it
+    for kind in ('remote', 'premote'):
+        for op in ('terminate', 'wait', 'is_alive'):
+            for beh in ('coop', 'swallow'):
+                for d in (0.0002, 0.0005, 0.001, 0.002, 0.004, 0.008, 0.02, 0.1, 0.6, 1.2):
+                    kw = {} if op == 'is_alive' else ({'timeout': 1} if op == 'wait' else {'timeout': 1, 'force': rng.choice([True, False])})
+                    out.append({'kind': kind, 'behaviour': beh, 'ops': [[op, kw], ['is_alive', {}]], 'items': 1, 'policy': {'kind': 'random', 'p_stay': 0.9},
+                                'knobs': {}, 'net_fault': rng.choice(['ETIMEDOUT', 'ECONNRESET']), 'net_delay': d, 'settle': 0.1,
+                                'sched_seed': ctx.case_seed('ctrl-failure-at', kind, op, beh, d)})
+    return out
+
+
 def plan(ctx):
     rng = ctx.rng
     n = 2500 if ctx.tier != 'thorough' else 60000
+    ctx.run(directed_cases(ctx, rng), 'directed')
     cases = []
     for i in range(n):
         cases.append(gen_case(ctx, rng, i))
